@@ -29,6 +29,9 @@ def table_event(ch_name, mk, p1000, alphabet, dtype, shape, er, seed, N):
         x = bits.float()
     x = x.reshape(shape)
     x = x.to(dtype) if dtype != torch.bool else (x > 0)
+    if x.dim() >= 2 and seed % 2 == 1:
+        from .core import transposed_view
+        x = transposed_view(x)          # every other multi-dimensional input is the dense transposed view of a buffer stored last-dimension-first
     before = x.clone()
     torch.manual_seed(seed + 1)
     ch = mk()
